@@ -14,6 +14,7 @@ import gen
 import mockca
 import tacdrun
 import vlib
+from ext import auditd_c20
 
 FINISH = dict(
     level="proof",
@@ -33,7 +34,23 @@ FINISH = dict(
          "(renewals forced by a certificate lifetime below renew_delay). The validating CA's verdict, the "
          "proof observed at the documented place, the left-overs after the clean hooks (listed by the "
          "post-operation recorder) and `git log` are judged by Spec.C20.holds. The rendered command lines "
-         "of the shipped hooks are compared with Model.HooksWorld.render. non-trivial = every scenario.",
+         "of the shipped hooks are compared with Model.HooksWorld.render. non-trivial = every scenario. "
+         "Widened by py/ext/auditd_c20.py (choices drawn from the seed): about half of all scenarios use a CA that "
+         "answers the challenge POST at once and validates LATER — at the 1st/2nd/3rd poll of the authorization or "
+         "from a background thread 0.3-1.5 s later — from three vantage points (3 file reads / handshakes over "
+         "~0.7 s, all must succeed; the first try of the handshake loop is counted). Restarts: the daemon is stopped "
+         "after issuance 1 and/or 2 (while the CA holds the next newOrder: no hook is running) and started again on "
+         "the same directories, git then meets a repository with history of its own and foreign untracked files; a "
+         "pid file naming a dead process exists before the first issuance (a stale socket file: observed only). "
+         "Three certificates in one daemon: the three groups side by side; with git and a `directory` each; with "
+         "git in ONE certificates_directory (observed only: commits get lost to .git/index.lock, reported). "
+         "accounts_directory = certificates_directory; a per-certificate directory; GIT_USERNAME / GIT_EMAIL set "
+         "(then only commits made in that name count as recording a file). TACD_HOST set with TACD_PORT defaulted "
+         "and the reverse; a decoy value at global (and certificate) level overridden at certificate / identifier "
+         "level; one TACD_PORT per identifier; TACD_PID_ROOT = TACD_SOCK_ROOT; roots with a trailing slash, a "
+         "space, non-ASCII characters. Identifiers configured as U-labels / in mixed case: every documented place "
+         "is derived from the name the CA was asked for, which must be the lower-case A-label form (Python's own "
+         "codec). The 79-character name in the unix group (socket root short enough for sun_path).",
 )
 
 TOK_DIR = ".well-known/acme-challenge"
@@ -72,10 +89,12 @@ def scenarios(ctx):
     # documented defaults of TACD_HOST (= identifier) and TACD_PORT (= 5001): run one after the other
     out.append({"idx": i, "group": "tls-alpn-01-tacd-tcp", "git": False, "n": 2, "ident": "localhost",
                 "level": "global", "default_hostport": True})
-    return out
+    return auditd_c20.widen(ctx, out)
 
 
 def run_one(sc, root, helper, tacd_dir):
+    if sc.get("ext"):
+        return auditd_c20.run_ext(sc, root, helper, tacd_dir)
     d = os.path.join(root, "s%d" % sc["idx"])
     os.makedirs(d, exist_ok=True)
     ident = sc["ident"]
@@ -121,6 +140,7 @@ def run_one(sc, root, helper, tacd_dir):
                     "unix:" + os.path.join(sock_root, "tacd_%s.sock" % authz["identifier"]["value"])
                 hs = tacdrun.handshake(at, [tacdrun.ACME_ALPN], server_name=authz["identifier"]["value"], timeout=2.0,
                                        max_tls12=sc["idx"] % 2 == 1)   # every other CA validates over TLS 1.2
+                obs.setdefault("first_try_ok", bool(hs.get("ok")))   # counted only: the loop hides a late bind
                 if hs.get("ok"):
                     break
                 time.sleep(0.05)
@@ -280,7 +300,7 @@ def run(ctx):
             results = list(ex.map(lambda s: run_one(s, root, helper, os.path.dirname(tacd)), par))
         for s in seq:
             results.append(run_one(s, root, helper, os.path.dirname(tacd)))
-        judge(ctx, results)
+        judge(ctx, auditd_c20.observe(ctx, results))
     finally:
         helper.close()
         shutil.rmtree(root, ignore_errors=True)
@@ -337,7 +357,7 @@ def replay(ctx):
     res = run_one(obj["sc"], root, helper, os.path.dirname(tacd))
     helper.close()
     n0 = len(ctx.violations)
-    judge(ctx, [res])
+    judge(ctx, auditd_c20.observe(ctx, [res]))
     shutil.rmtree(root, ignore_errors=True)
     for d, _ in ctx.violations[n0:]:
         print(d)
